@@ -6,8 +6,10 @@ using namespace vf;
 struct Case {
   SrcFamily fam;
   int dupsort = 0;
-  int merge = 1;  // 1: concatenating merge function; 0: no merge function (only generated with key sets that are disjoint
-                  // across sources, where "one table holding the merged content" is still well defined)
+  int merge = 1;  // 1: concatenating merge function; 0: no merge function — then either the key sets are disjoint across
+                  // sources, or a dupsort function is set (values are distinct tokens, so (key, value) is a total order and
+                  // "one table holding the merged content" is the multiset sorted by it)
+  int nest = 0;   // 1: the first two sources are wrapped into an inner merger (same options) that is itself a source
   std::vector<IterSpec> iters;
   std::vector<Op> ops;
   std::vector<bytes> extra;
@@ -15,9 +17,10 @@ struct Case {
   int queries = 1;  // also run the derived query set
   bool valid() const {
     if (!fam.valid() || dupsort < 0 || dupsort > 2 || iters.empty() || iters.size() > 4 || merge < 0 || merge > 1) return false;
-    if (merge == 0)
+    if (merge == 0 && dupsort == 0)
       for (auto &kv : fam.occurrences())
         if (kv.second > 1) return false;
+    if (nest < 0 || nest > 1) return false;
     for (auto &o : ops)
       if (o.it < 0 || o.it >= (int)iters.size()) return false;
     return true;
@@ -25,7 +28,7 @@ struct Case {
   std::string ser() const {
     Out o;
     o << "property C05\n";
-    o << "opts dupsort=" << dupsort << " merge=" << merge << " qseed=" << qseed << " queries=" << queries << "\n";
+    o << "opts dupsort=" << dupsort << " merge=" << merge << " nest=" << nest << " qseed=" << qseed << " queries=" << queries << "\n";
     fam.ser(o);
     for (size_t i = 0; i < iters.size(); i++) o << "iter " << i << " " << iters[i].ser() << "\n";
     for (auto &e : extra) o << "query " << (e.empty() ? "-" : hex(e)) << "\n";
@@ -43,6 +46,7 @@ struct Case {
           long long v = atoll(row[i].c_str() + e + 1);
           if (k == "dupsort") c.dupsort = (int)v;
           else if (k == "merge") c.merge = (int)v;
+          else if (k == "nest") c.nest = (int)v;
           else if (k == "qseed") c.qseed = (uint32_t)v;
           else if (k == "queries") c.queries = (int)v;
         }
@@ -59,7 +63,12 @@ static Case gen_case() {
   Case c;
   c.fam = gen_family(6, true);
   c.dupsort = weighted({60, 20, 20});
-  if (chance(30)) {
+  c.nest = chance(25);
+  if (chance(15)) {
+    // no merge function, duplicates across sources allowed: a dupsort function makes the order of equal keys defined
+    c.merge = 0;
+    c.dupsort = chance(50) ? 1 : 2;
+  } else if (chance(20)) {
     // no merge function: make the key sets disjoint by giving every source its own last byte
     c.merge = 0;
     for (size_t si = 0; si < c.fam.srcs.size(); si++) {
@@ -104,6 +113,18 @@ static Result run_case(const Case &c) {
     LiveSources ls;
     if (!ls.build(c.fam, r)) return;
     RefTable model = c.fam.merged();
+    if (!c.merge) {
+      // every source entry is emitted; equal keys ordered by the dupsort function (bytewise / reverse bytewise on the value)
+      model.e.clear();
+      for (size_t i = 0; i < c.fam.srcs.size(); i++)
+        for (auto &kv : c.fam.content(i)) model.e.push_back(kv);
+      int sign = c.dupsort == 2 ? -1 : 1;
+      std::stable_sort(model.e.begin(), model.e.end(), [&](const KV &x, const KV &y) {
+        int k = bcmp3(x.first, y.first);
+        if (k) return k < 0;
+        return sign * bcmp3(x.second, y.second) < 0;
+      });
+    }
     MergeClos mc;
     mc.keep_log = false;
     struct mtbl_merger_options *mo = mtbl_merger_options_init();
@@ -111,19 +132,34 @@ static Result run_case(const Case &c) {
     if (c.dupsort) mtbl_merger_options_set_dupsort_func(mo, dupsort_bytewise, c.dupsort == 2 ? (void *)1 : nullptr);
     struct mtbl_merger *mg = mtbl_merger_init(mo);
     mtbl_merger_options_destroy(&mo);
-    for (auto s : ls.sources) mtbl_merger_add_source(mg, s);
+    struct mtbl_merger *inner = nullptr;
+    if (c.nest && ls.sources.size() >= 2) {
+      struct mtbl_merger_options *io = mtbl_merger_options_init();
+      if (c.merge) mtbl_merger_options_set_merge_func(io, concat_merge, &mc);
+      if (c.dupsort) mtbl_merger_options_set_dupsort_func(io, dupsort_bytewise, c.dupsort == 2 ? (void *)1 : nullptr);
+      inner = mtbl_merger_init(io);
+      mtbl_merger_options_destroy(&io);
+      mtbl_merger_add_source(inner, ls.sources[0]);
+      mtbl_merger_add_source(inner, ls.sources[1]);
+      mtbl_merger_add_source(mg, mtbl_merger_source(inner));
+      for (size_t i = 2; i < ls.sources.size(); i++) mtbl_merger_add_source(mg, ls.sources[i]);
+      r.tag("nested_merger_as_source");
+    } else
+      for (auto s : ls.sources) mtbl_merger_add_source(mg, s);
     const struct mtbl_source *src = mtbl_merger_source(mg);
 
     HistStats hs;
-    std::string e = run_history(src, model, c.iters, c.ops, hs, token_cmp());
+    ValueCmp vcmp = c.merge ? token_cmp() : ValueCmp();
+    std::string e = run_history(src, model, c.iters, c.ops, hs, vcmp);
     if (!e.empty()) r.failf("%s", e.c_str());
     QueryStats qst;
     if (!r.fail && c.queries) {
       std::vector<bytes> qs = derived_queries(model, {}, c.extra, c.qseed);
-      e = run_queries(src, model, qs, c.qseed, qst, token_cmp());
+      e = run_queries(src, model, qs, c.qseed, qst, vcmp);
       if (!e.empty()) r.failf("%s", e.c_str());
     }
     mtbl_merger_destroy(&mg);
+    if (inner) mtbl_merger_destroy(&inner);
 
     std::set<std::vector<bytes>> keysets;
     for (auto &s : c.fam.srcs) keysets.insert(s.keys);
@@ -138,7 +174,7 @@ static Result run_case(const Case &c) {
     if (hs.backward_seek) r.tag("backward_seek");
     if (hs.seek_after_exhaustion) r.tag("seek_after_failure");
     if (c.queries) r.tag("lookups_through_merger_source");
-    if (!c.merge) r.tag("no_merge_function_disjoint_sources");
+    if (!c.merge) r.tag(c.dupsort && merged_keys ? "no_merge_function_duplicates_ordered_by_dupsort" : "no_merge_function_disjoint_sources");
     for (auto &s : c.iters) r.tag("kind_" + std::to_string(s.kind));
     for (auto &s : c.fam.srcs)
       if (s.kind == 1) r.tag("user_defined_source");
